@@ -328,10 +328,11 @@ void gen_forged(Ctx &cx, const Sink &sink, bool thorough) {
 struct Outcome {
   ops::Result v, d;
 };
-Outcome run_both(const Input &in) {
+// echo: the result printer (CLI default) is exercised on every second case - diagnostics are code too
+Outcome run_both(const Input &in, bool echo = false) {
   Outcome o;
-  o.v = ops::verify(in.F, in.key, in.T);
-  o.d = ops::decrypt(in.F, in.key, in.T);
+  o.v = ops::verify(in.F, in.key, in.T, echo);
+  o.d = ops::decrypt(in.F, in.key, in.T, echo);
   return o;
 }
 } // namespace
@@ -435,7 +436,9 @@ void run_C11(Ctx &cx) {
     cx.begin(desc);
     cx.rep.count("inputs");
     cx.rep.count(std::string("inputs_") + (in.base ? "from-genuine-" + in.kind : "garbage-" + in.kind));
-    Outcome o = run_both(in);
+    bool echo = (cx.idx & 1) != 0;
+    if (echo) cx.rep.count("inputs_with_echo_on");
+    Outcome o = run_both(in, echo);
     c11_oracle(cx, in, o, desc);
     if (cx.idx % 20011 == 0) cx.rep.sample(desc);
   };
@@ -456,7 +459,7 @@ void run_C12(Ctx &cx) {
       cx.rep.counters["cases"]--;
       o.d = ops::decrypt(in.F, in.key, in.T);
     } else
-      o = run_both(in);
+      o = run_both(in, (cx.idx & 1) != 0);
     vh::J j;
     j.boolean("verify", o.v.ret).boolean("decrypt", o.d.ret);
     std::string cls = in.base ? in.kind : "garbage-" + in.kind;
